@@ -138,21 +138,58 @@ Qed.
 Lemma last_digit_underscore : forall n, last_digit ("_" +++ n) = last_digit n.
 Proof. intros n. destruct n; reflexivity. Qed.
 
+(* the sanitised name ends in a digit only if the name does *)
+Lemma last_digit_snoc : forall p c, last_digit (p +++ String c "") = is_digit c.
+Proof. intros p c. rewrite last_digit_app by discriminate. reflexivity. Qed.
+
+Lemma last_digit_tail : forall c r, last_digit (String c r) = false -> last_digit r = false.
+Proof. intros c r H. destruct r as [|c2 r]; [reflexivity|exact H]. Qed.
+
+Lemma is_digit_ident : forall c, is_digit c = false -> is_digit (if ident_char c then c else "_"%char) = false.
+Proof. intros c H. destruct (ident_char c); [exact H|reflexivity]. Qed.
+
+Lemma cident_aux_last : forall s b p,
+  (b = true -> last_digit p = false) -> (s = "" -> last_digit p = false) -> last_digit s = false ->
+  last_digit (p +++ cident_aux b s) = false.
+Proof.
+  induction s as [|c r IH]; intros b p Hb He Hs; cbn [cident_aux].
+  - rewrite str_app_nil_r. apply He. reflexivity.
+  - pose proof (last_digit_tail c r Hs) as Hr.
+    assert (Hc : r = "" -> is_digit c = false) by (intro E; subst r; exact Hs).
+    destruct (nat_of_ascii c <? 128)%nat.
+    + replace (p +++ String (if ident_char c then c else "_"%char) (cident_aux false r))
+        with ((p +++ String (if ident_char c then c else "_"%char) "") +++ cident_aux false r)
+        by (rewrite str_app_assoc; reflexivity).
+      apply IH; [discriminate| |exact Hr].
+      intro E. rewrite last_digit_snoc. apply is_digit_ident, Hc, E.
+    + destruct (nat_of_ascii c <? 192)%nat.
+      * destruct b.
+        -- apply IH; [intros _; apply Hb; reflexivity|intros _; apply Hb; reflexivity|exact Hr].
+        -- replace (p +++ String "_"%char (cident_aux false r)) with ((p +++ String "_"%char "") +++ cident_aux false r)
+             by (rewrite str_app_assoc; reflexivity).
+           apply IH; [discriminate|intros _; rewrite last_digit_snoc; reflexivity|exact Hr].
+      * replace (p +++ String "_"%char (cident_aux true r)) with ((p +++ String "_"%char "") +++ cident_aux true r)
+          by (rewrite str_app_assoc; reflexivity).
+        apply IH; [intros _; rewrite last_digit_snoc; reflexivity|intros _; rewrite last_digit_snoc; reflexivity|exact Hr].
+Qed.
+
+Lemma last_digit_cident : forall n, last_digit n = false -> last_digit ("_" +++ cident n) = false.
+Proof. intros n H. unfold cident. apply cident_aux_last; [discriminate|intros _; reflexivity|exact H]. Qed.
+
+(* two class variables are the same text only at the same index (the sanitised names need not be equal as the labels
+   are not: "a-b" and "a.b" both give _a_b) *)
 Lemma unique_name_class_inj : forall n1 n2 a b,
   last_digit n1 = false -> last_digit n2 = false ->
-  unique_name n1 true a = unique_name n2 true b -> n1 = n2 /\ a = b.
+  unique_name n1 true a = unique_name n2 true b -> a = b.
 Proof.
   intros n1 n2 a b H1 H2 H. unfold unique_name in H.
-  rewrite <- !str_app_assoc in H.
-  destruct (name_index_split ("_" +++ n1) ("_" +++ n2) a b) as (Hs & Hab); auto;
-    try (rewrite last_digit_underscore; assumption).
-  split; [|exact Hab]. simpl in Hs. inversion Hs. reflexivity.
+  destruct (name_index_split ("_" +++ cident n1) ("_" +++ cident n2) a b) as (Hs & Hab); auto using last_digit_cident.
 Qed.
 
 (* the same name at two indices: always different variables *)
 Lemma unique_name_same_inj : forall n a b, unique_name n true a = unique_name n true b -> a = b.
 Proof.
-  intros n a b H. unfold unique_name in H. apply str_app_inv_head in H. apply str_app_inv_head in H.
+  intros n a b H. unfold unique_name in H. apply str_app_inv_head in H.
   apply dec_nat_inj. exact H.
 Qed.
 
@@ -209,10 +246,9 @@ Lemma vars_from_NoDup : forall names index,
 Proof.
   induction names as [|n r IH]; intros index Hn; simpl; constructor.
   - intros Hin. destruct (vars_from_in _ _ _ Hin) as (n' & k & Hn' & Hk & Hv).
-    destruct (unique_name_class_inj n n' index k) as (_ & E); auto.
-    + apply Hn. left. reflexivity.
-    + apply Hn. right. exact Hn'.
-    + lia.
+    assert (E : index = k).
+    { apply (unique_name_class_inj n n' index k); [apply Hn; left; reflexivity|apply Hn; right; exact Hn'|exact Hv]. }
+    lia.
   - apply IH. intros n' Hn'. apply Hn. right. exact Hn'.
 Qed.
 
